@@ -43,7 +43,8 @@ Consume ==
                            ELSE StateClauses')
             /\ IF e.ev \in {"serve", "abort"} THEN UNCHANGED dpc
                ELSE /\ dpc' = dpc + 1
-                    /\ (dpc <= Len(Prog(cfg)) /\ Prog(cfg)[dpc] = e.ev) \/ RecordDrift(tid, l, e.ev)
+                    /\ IF dpc <= Len(Prog(cfg)) /\ Prog(cfg)[dpc] = e.ev THEN TRUE
+                       ELSE RecordDrift(tid, l, e.ev)
 
 TNext == Consume
 TSpec == TInit /\ [][TNext]_tvars
